@@ -36,6 +36,12 @@ LSpec == LInit /\ [][LNext]_<<tbl, heap, hist, init>>
 Same(a, b) == a.obs = b.obs /\ a.samp = b.samp /\ a.mat = b.mat /\ a.omd = b.omd /\ a.smd = b.smd
 
 TransposeInvolution == Same(Transpose(Transpose(tbl)), tbl)
+\* the definitions restated in BiomTableProofs (for the proof system) are the operators of BiomTable
+Proofs == INSTANCE BiomTableProofs
+ProofCopiesAgree ==
+  /\ Proofs!TransposeP(tbl) = Transpose(tbl)
+  /\ Proofs!ShapedP(tbl) = Shaped(tbl)
+  /\ \A j \in 1..Len(tbl.samp) : Proofs!ColP(tbl, j) = Col(tbl, j)
 SortInverse ==
   \A ax \in Axes : \A o \in PermsOf(Ids(tbl, ax)) :
      Same(SortOrder(SortOrder(tbl, o, ax), Ids(tbl, ax), ax), tbl)
